@@ -76,6 +76,8 @@ class TrackedIter:
         ra = beh.get("raise_at")
         if ra and ra[0] == "iter" and ra[1] == self.k:
             app.raise_or_recall(self.idx, beh, self.sr)
+        if beh.get("stall_after") is not None and self.k == beh["stall_after"]:
+            app.step(self.idx, "stall", self.k)   # a streaming / long-poll application that now waits (for ever)
         if self.k >= len(self.chunks):
             raise StopIteration
         c = self.chunks[self.k]
